@@ -464,6 +464,19 @@ class C19(Prop):
                 if list(back[0]) != list(row) or list(back[0].__fields__) != list(st.names):
                     return Mismatch('createDataFrame with a schema does not return the input row', pv(back[0]), pv(row),
                                     'C19:create-schema:roundtrip', relation='spec')
+                if len(row):
+                    # the same values as a Row built from positional values only (a Row without field names: a tuple)
+                    prow = t.Row(*list(row))
+                    try:
+                        back = self.spark.createDataFrame([prow], st).collect()
+                        ok = list(back[0]) == list(row) and list(back[0].__fields__) == list(st.names)
+                    except Exception as e:  # pylint: disable=broad-except
+                        return Mismatch('createDataFrame(Row built from positional values, schema).collect() raised', exc(e), pv(row),
+                                        'C19:create-schema:positional-row-exc', relation='spec')
+                    ctx.note('create-schema:positional-row')
+                    if not ok:
+                        return Mismatch('createDataFrame(Row built from positional values, schema) does not return the input row',
+                                        pv(tuple(back[0])), pv(tuple(row)), 'C19:create-schema:positional-row', relation='spec')
                 if len(set(st.names)) == len(st.names) and st.names:
                     # the same row built with keywords (the Row constructor sorts the fields by name), and with one field
                     # more than the schema has: the values must arrive under their own names, one value per column
